@@ -121,7 +121,7 @@ def falsify_empty_file(chk, P, count):
 def main():
     chk = common.Check('C08')
     import mo_common as P
-    proved = chk.prove('I18n.Props.C08', generated=())
+    proved = P.prove(chk, 'I18n.Props.C08')
     extra = []
     if os.path.exists(common.driver_path()):
         n = 40000 if chk.thorough else 8000
